@@ -640,8 +640,9 @@ class Send (BlockingOperation):
 
     if l == 0:
       # Select and try again later
-      scheduler._selectHub.registerSelect(task, None, [self._fd], [self._fd],
-                                          timeout=self._timeout)
+      self._scheduler._selectHub.registerSelect(task, None, [self._fd],
+                                                [self._fd],
+                                                timeout=self._timeout)
       return ABORT
 
     self._sent += l
